@@ -10,7 +10,10 @@
    * The queue is the abstraction "ObjExec" of Model.v (one operation at a time, FIFO, a suspended slot job parks
      the queue; while the task drains the queue inside `SchedulerFuture::poll` no background runner steps it).
      That the real queue state machine implements this is the business of the other layers (C01/C02/C07).
-   * Other operations never suspend on their own and the slot job is never destroyed unrun (no panic in the queue).
+   * Other operations may suspend (AOSusp) and are resumed by AOWake, which counts as an actor of the system in
+     [terminal]: whatever a suspended other operation waits for eventually happens.  A background runner may poll a parked
+     queue again without a wake-up (AWakeQ).  The slot job is never destroyed unrun (no panic in the queue).
+     These three actors were added after the replay of implementation logs (driver/syncfut) showed the behaviours.
 
    Vocabulary: the ghost log [log s] is in chronological order; [log s = l1 ++ e :: l2] reads "e happened, l1 is
    everything before it".  [nb] operations were scheduled before the slot job (ids 0..nb-1), [na] after it
